@@ -264,7 +264,9 @@ fn main() {
             }
             if let Some(c) = arg(&args, "--reference") {
                 let c: usize = c.parse().unwrap();
-                evs.push(json!({"ev": "Ref", "scen": 0, "call": c, "digest": threads::reference(c)}));
+                // (a panic of the library in a call of the menu is a result, reported as such: no call of the menu may panic)
+                let d = std::panic::catch_unwind(|| threads::reference(c)).unwrap_or_else(|_| "panic".to_string());
+                evs.push(json!({"ev": "Ref", "scen": 0, "call": c, "digest": d}));
             }
             if let Some(path) = arg(&args, "--histories") {
                 let lines: Vec<Value> = std::fs::read_to_string(path).unwrap().lines().filter(|l| !l.trim().is_empty()).map(|l| serde_json::from_str(l).unwrap()).collect();
